@@ -106,10 +106,12 @@ FunctionLang::execute(
                         langVal[valLen] == XalanUnicode::charHyphenMinus)
                     {
                         fMatch = true;
-
-                        break;
                     }
                 }
+
+                // The nearest xml:lang attribute determines the language,
+                // whether or not it matches.
+                break;
             }
         }
 
